@@ -108,32 +108,20 @@ theorem c12_checks_derived_ok (O : Oracles) {w : World} (hS : HasStructure w) (c
     simp only [mroCheck, h1, h2, Bool.and_self, if_true, okU]
   · -- finalCheck
     simp [finalCheck, htail, sealedCls, hS', World.builtin, okU]
-  · -- constCheck on the members as getattr sees them
-    simp only [resolvedFields, List.mem_map] at hp
-    rcases hp with ⟨q, hq, rfl⟩
-    rw [hall] at hq
-    have hq' : q ∈ fields := by
+  · -- constCheck on the members by name
+    have hq : p ∈ updateAll [] fields := by
+      have : p ∈ allFieldsOf w (derivedSrc c nm fields req) := hp
+      rwa [hall] at this
+    have hq' : p ∈ fields := by
       rcases c12_mem_updateAll hq with h | h
       · cases h
       · exact h
-    have hsome : (lookup q.1 fields.reverse).isSome = true := by
-      rw [lookup_isSome_iff]
-      simp only [List.map_reverse, List.mem_reverse]
-      exact List.mem_map_of_mem hq'
-    cases hl : lookup q.1 fields.reverse with
-    | none => simp [hl] at hsome
-    | some m' =>
-      have hm' : (q.1, m') ∈ fields := by
-        have := lookup_mem hl
-        simpa using this
-      have hres : resolveAttr w (derivedSrc c nm fields req) q.1 = some m' := by
-        simp only [resolveAttr, hown, hl]
-      simp only [hres, Option.getD_some, constCheck]
-      cases hm : m' with
-      | field d dflt => rfl
-      | const v =>
-        have := (hg _ hm').2 v hm
-        simp [this, okU]
+    simp only [constCheck]
+    cases hm : p.2 with
+    | field d dflt => rfl
+    | const v =>
+      have := (hg _ hq').2 v hm
+      simp [this, okU]
   · -- optionalCheck
     simp [optionalCheck, derivedSrc, okU]
   · -- blockConstCheck
@@ -257,11 +245,7 @@ theorem c12_build_good {O : Oracles} {w : World} {src : ClassSrc} (hw : WorldOk 
       | false => rfl
       | true => rw [hb] at hnc; simp at hnc
     · intro v hv
-      have hres : resolveAttr w src p.1 = some p.2 := by
-        simp only [resolveAttr, hl]
-      have hin : (p.1, p.2) ∈ resolvedFields w src := by
-        simp only [resolvedFields, List.mem_map]
-        exact ⟨p, hp, by simp [hres]⟩
+      have hin : (p.1, p.2) ∈ resolvedFields w src := hp
       have hcc := runChecks_ok_mem hc _ (mem_checks_const (O := O) hin)
       simp only [constCheck, hv] at hcc
       cases hs : constSupported v with
